@@ -121,6 +121,15 @@ def apply_to_params(ip, c, params):
     for gn, gv in (ctx.ghost.get('globals') or {}).items():
         oparams.setdefault('G' + gn, gv)      # module globals the callee's contract speaks about
     old = Old(snapshot(oparams))
+    # 1b. recursion measure: a (directly) recursive call must decrease the measure of the verified function
+    mf = c.cls.__dict__.get('measure')
+    if mf is not None and c.key == ip.verifying and ctx.ghost.get('old') is not None and not ctx.ghost.get('in_spec'):
+        af = ip.reg.side_ast(getattr(mf, '__func__', mf))
+        names_ = [a.arg for a in af.node.args.args]
+        m_new = ip.call_ast(af, [params[n] for n in names_], {})
+        m_old = ip.call_ast(af, [getattr(ctx.ghost['old'], n) for n in names_], {})
+        from .sym import zint as _zi
+        ctx.oblige(f'{site}/measure', z3.And(_zi(m_new) >= 0, _zi(m_new) < _zi(m_old)), 'variant')
     spec = ip.reg.contract_fn(c, 'spec')
     raised = None
     result = None
